@@ -322,8 +322,11 @@ func c07Set(ctx *core.Ctx, i int, fs gen.FileSet, thorough bool) {
 
 func mergeSets(thorough bool) []gen.FileSet {
 	if thorough {
-		out := gen.FileSets(2, 3, true)
-		out = append(out, gen.FileSets(3, 2, false)...)
+		// the quick sets first, then deeper sets over the conflict-relevant sub-menu of 7 declarations
+		out := gen.FileSets(2, 2, true)
+		out = append(out, gen.FileSets(3, 1, false)...)
+		out = append(out, gen.FileSetsCore(3, 2)...)
+		out = append(out, gen.FileSetsCore(2, 3)...)
 		return out
 	}
 	out := gen.FileSets(2, 2, true)
@@ -358,7 +361,7 @@ func replayMerge(c json.RawMessage) (*mergeCase, []renderedFile) {
 func init() {
 	core.Register(&core.Check{
 		ID: "C07",
-		Rule: "module file sets: 2 files x <= 2 declarations (quick; thorough 2 x <= 3 and 3 x <= 2; quick adds 3 x <= 1) from a menu of 13 declarations " +
+		Rule: "module file sets: 2 files x <= 2 declarations and 3 x <= 1 (quick; thorough adds 3 x <= 2 and 2 x <= 3 over the conflict-relevant sub-menu of 7 declarations) from a menu of 13 declarations " +
 			"(types with/without relations, extensions with fresh / clashing / no relations, extension of an undefined type, conditions), plus sets completed by one of 7 malformed members " +
 			"(model-header files with/without relations/conditions, syntax errors, module without name, type extended twice) x every permutation of the file list x schema versions " +
 			"x map schedules of the merger's six map-iteration sites (budget 1 quick / 2 thorough); each set also with its files rendered in another uniform layout style (blank lines, comments, tabs, CRLF, extra spaces; rotating, all styles for every 16th set). Oracle: reference merge over the declarations the generator wrote. " +
